@@ -138,7 +138,9 @@ AddBad(hdr, ops, j) ==
 \* J = the Add* calls that make up the construction which call jc compiles
 CompileBad(hdr, ops, jc, J) ==
   LET o == ops[jc]  C == ConnSet(ops, J) IN
-  IF ~\E c \in C : c[1] = START THEN "no-entry"
+  IF hdr.fe = "chain" THEN      \* a chain connects what is appended by itself: START -> first -> ... -> last -> END
+       (IF DeclIdx(ops, J) = {} THEN "no-entry" ELSE IF o.m = "all" THEN "invalid-option-combination" ELSE "")
+  ELSE IF ~\E c \in C : c[1] = START THEN "no-entry"
   ELSE IF ~\E c \in C : c[2] = END THEN "no-exit"
   ELSE IF Untypable(ops, J) # {} THEN "untyped-passthrough"
   ELSE IF o.m = "all" /\ Cyclic(ops, J) THEN "cycle-in-all-predecessor-mode"
@@ -239,7 +241,14 @@ OutcomeWhy(hdr, ops, outs) ==
   ELSE IF C20On /\ \E j \in 1..n : outs[j] = "P" THEN "call-panicked"
   ELSE IF C20On /\ f # 0 /\ \E j \in (f + 1)..n : outs[j] # "S" THEN "error-not-sticky"
   ELSE IF C20On /\ \E j \in 1..n : ops[j].op = "compile" /\ outs[j] = "ok" /\ IllFormedAt(hdr, ops, j, Construction(ops, j, jc)) THEN "illformed-accepted"
-  ELSE IF C20On /\ hdr.fe # "wf" /\ jc # 0 /\ \E j \in (jc + 1)..n : IsAdd(ops[j]) /\ ~Failed(outs[j]) THEN "modified-after-compile"
+  ELSE IF C20On /\ hdr.fe = "graph" /\ jc # 0 /\ \E j \in (jc + 1)..n : IsAdd(ops[j]) /\ ~Failed(outs[j]) THEN "modified-after-compile"
+  \* "can no longer be modified" + "same construction, same outcome": the calls made after the successful Compile are refused and
+  \* must leave no trace, so compiling again with the same options ends like the first time (Graph and Chain; a Workflow's
+  \* SetStaticValue is not an Add* and legitimately changes what a later Compile sees)
+  ELSE IF C20On /\ hdr.fe \in {"graph", "chain"} /\ jc # 0
+          /\ \E j \in (jc + 1)..n : /\ ops[j].op = "compile" /\ ops[j].m = ops[jc].m /\ ops[j].x = ops[jc].x /\ outs[j] # "ok"
+                                     /\ \A i \in (jc + 1)..(j - 1) : IsAdd(ops[i]) \/ ops[i].op = "compile"
+       THEN "recompile-after-refused-calls-differs"
   ELSE IF C07On /\ jc # 0 /\ ConcreteMismatch(hdr, ops, Accepted(ops, outs, jc)) THEN "accepted-concrete-mismatch"
   ELSE ""
 \* detail for the reason above (which reference predicate fired)
